@@ -917,6 +917,9 @@ PROPS = {
     "C09": dict(
         retry_on_failure=True,
         suites=["c09", "c09live", "c09origin"],
+        # the codec suites of the other properties, for their panics and hangs only (wrong answers are those properties' business)
+        borrowed_suites={"c06": ["panic", "spin_or_hang", "hang"], "c08": ["panic", "spin_or_hang", "hang"], "c11": ["panic", "spin_or_hang", "hang"],
+                         "c12": ["panic", "spin_or_hang", "hang", "loop_stalled"], "c15": ["panic", "spin_or_hang", "hang"]},
         judge=judge_c09,
         level="proof",
         exhaustive=True,
@@ -937,6 +940,7 @@ PROPS = {
              "Initial cut to every length / extended / altered under fresh connection ids - and 180 (720) TCP connections with "
              "garbage, truncated, mutated or over-long first records, half of them abandoned; after every batch a fresh HTTP/3 session "
              "and a fresh TLS connection must still be served (a panic in a listener task would end Core::listen)"
+             " Borrowed: the codec suites c06, c08, c11, c12, c15 of the other properties run here too, for panics, hangs and stalled loops only."
              " Hostile origins (suite c09origin): 900 (thorough 6000) origin byte streams of a plain-HTTP forwarding - more bytes than "
              "the Content-Length announces, bodies on 204 / 304 / HEAD / Content-Length: 0 responses, bytes after the last chunk, broken "
              "and overflowing chunk sizes, conflicting / negative / huge Content-Length, up to 200 interim responses, heads of up to 3000 "
